@@ -35,7 +35,7 @@ var remoteAddrs = []string{
 	"http::https://example.com/p7.tgz",
 }
 
-var registryAddrs = []string{"example.com/ns/r0/aws", "ns/r1/null", "テラフォーム.example.com/ns/r2/k8s", "example.com:8443/ns/r3/aws"}
+var registryAddrs = []string{"example.com/ns/r0/aws", "ns/r0/aws", "テラフォーム.example.com/ns/r2/k8s", "example.com:8443/ns/r3/aws"} // the first two: same path on two hosts
 
 var subPool = []string{"", "modules/a", "modules/b", "x", "modules/a/nested"}
 var oddSubPool = []string{"with space", "mod@1.0", "ünï", "a+b", "per%cent"}
@@ -264,7 +264,8 @@ func genExtra(t *rapid.T, i int) fsx.Tree {
 		case 2:
 			tr = append(tr, fsx.Node{Path: "empty-" + name, Kind: "dir", Mode: 0755, Sec: 1500000300})
 		case 3:
-			tr = append(tr, fsx.Node{Path: "link-" + name, Kind: "symlink", Target: "pkg.txt"})
+			tr = append(tr, fsx.Node{Path: "link-" + name, Kind: "symlink", Target: rapid.SampledFrom([]string{"pkg.txt", "./pkg.txt", "docs/../pkg.txt", ".//pkg.txt"}).Draw(t, "linktarget")},
+				fsx.Node{Path: "docs/about.md", Kind: "file", Content: "about", Mode: 0644, Sec: 1500000050})
 		case 4:
 			tr = append(tr, fsx.Node{Path: "ro/" + name, Kind: "file", Content: "readonly", Mode: 0444, Sec: 1500000400, Nsec: 500000000})
 		case 5:
